@@ -5,11 +5,19 @@ Same component models as C01 (M-Layer, M-LayerSet, M-FileSet, M-Parts).  Proved 
 history: an in-place save and a save-as write the same content; nothing deleted or renamed is
 left behind; afterwards every flag the save path owns is clear; a second save writes nothing;
 and whenever nothing is dirty the UFO holds the content.
+
+Round 3: M-SubFlags composes the components into the flag tree of the whole font (font, layer
+set, layers and their libs, glyphs, and below each glyph its contours, components, anchors,
+guidelines, image and lib).  Proved for every history of its operations: dirty is closed upwards,
+everything is clean after a load and after a save, and a font that is not dirty holds nothing
+that reports dirty.
 -/
 import DefconModel.Lemmas.Layer
 import DefconModel.Lemmas.FileSet
 import DefconModel.Lemmas.Parts
 import DefconModel.Lemmas.LayerSet
+import DefconModel.Lemmas.SubFlags
+import DefconModel.Props.C07
 
 namespace DefconModel.Props.C06
 open DefconModel
@@ -135,7 +143,160 @@ theorem glyphs_not_dirty_means_persisted (s : Layer.State) (h : Layer.Good s) (h
     subst this
     rw [Layer.abs_of_loaded hl, h.wf.cleanEq k r hl]
 
+/-! ### the dirty flags of the whole tree (M-SubFlags) -/
+
+open SubFlags in
+/-- After any history of operations on a new or a freshly opened font — edits of contours,
+components, anchors, guidelines, images, glyph libs, layer libs, glyph and layer creation,
+deletion and renaming, lazy reads, edits of the top-level parts, images and data, saves in place
+and save-as — whenever an object reports dirty, so does its parent: the top-level parts, the
+image set, the data set and the layer set under the font; each layer under the layer set; the
+layer lib and every loaded glyph under its layer; every contour, component, anchor, guideline,
+the image and the lib under their glyph.  (Domain: notifications not disabled or held by the
+caller, flags not reset by hand.) -/
+theorem dirty_upward_closed (f0 : FontF) (h0 : Initial f0) (ops : List Op) : UC (run f0 ops) :=
+  (inv_reachable h0 ops).1
+
+open SubFlags in
+/-- spelled out for the longest chain: a contour, component, anchor, guideline, image or glyph
+lib that reports dirty makes its glyph, the glyph's layer, the layer set and the font report dirty -/
+theorem subobject_dirty_reaches_font (f0 : FontF) (h0 : Initial f0) (ops : List Op)
+    (lid : Nat) (L : LayerF) (n : String) (sb : Sub)
+    (hl : AL.get? (run f0 ops).lf lid = some L) (hs : AL.get? L.subs n = some sb) (hd : ¬ sb.Clean) :
+    gdirty L.base n = true ∧ L.dirty = true ∧ (run f0 ops).lsDirty = true ∧ (run f0 ops).dirty = true := by
+  have h := dirty_upward_closed f0 h0 ops
+  have hL := h.inner lid L hl
+  have h1 := hL.sub n sb hs hd
+  have h2 := hL.glyph n h1
+  have h3 := h.layer lid L hl h2
+  exact ⟨h1, h2, h3, h.ls h3⟩
+
+open SubFlags in
+/-- a layer lib that reports dirty makes its layer, the layer set and the font report dirty -/
+theorem layer_lib_dirty_reaches_font (f0 : FontF) (h0 : Initial f0) (ops : List Op) (lid : Nat) (L : LayerF)
+    (hl : AL.get? (run f0 ops).lf lid = some L) (hd : L.lib = true) :
+    L.dirty = true ∧ (run f0 ops).lsDirty = true ∧ (run f0 ops).dirty = true := by
+  have h := dirty_upward_closed f0 h0 ops
+  have h2 := (h.inner lid L hl).lib hd
+  have h3 := h.layer lid L hl h2
+  exact ⟨h2, h3, h.ls h3⟩
+
+open SubFlags in
+/-- Right after loading a UFO no object of the font reports dirty; and reading a glyph at any
+later time (`layer[name]`, which also reads the base glyphs of its components) changes no flag
+that was there and brings in only objects that do not report dirty: the glyph asked for, when it
+was not in memory, holds exactly the objects of its GLIF, every flag clear. -/
+theorem subobjects_clean_after_load :
+    (∀ imgs dats ps layers defLid defName glyphs, NothingDirty (opened imgs dats ps layers defLid defName glyphs)) ∧
+    (∀ (L L' : LayerF) (n : String), fetch L n = .ok L' →
+      L'.dirty = L.dirty ∧ L'.lib = L.lib ∧ (∀ k, gdirty L'.base k = gdirty L.base k) ∧
+      (∀ k sb, AL.get? L'.subs k = some sb → AL.get? L.subs k = some sb ∨ sb.Clean)) ∧
+    (∀ (L L' : LayerF) (n : String), getGlyph L n = .ok L' → Layer.isLoaded L.base n = false →
+      AL.get? L'.subs n = some (Sub.loaded (shapeOf L n)) ∧ (Sub.loaded (shapeOf L n)).Clean ∧
+      gdirty L'.base n = false) := by
+  refine ⟨fun _ _ _ _ _ _ _ => nothingDirty_opened .., ?_, ?_⟩
+  · intro L L' n h
+    have q := quiet_fetch h
+    exact ⟨q.dirty, q.lib, q.glyph, q.sub⟩
+  · intro L L' n h hn
+    have q := quiet_getGlyph h
+    refine ⟨?_, clean_loaded _, ?_⟩
+    · unfold getGlyph at h
+      split at h
+      · simp at h
+      · simp only [Except.ok.injEq] at h
+        subst h
+        simp [hn]
+    · rw [q.glyph]
+      unfold gdirty
+      unfold Layer.isLoaded AL.contains at hn
+      cases hg : AL.get? L.base.loaded n with
+      | none => rfl
+      | some p => rw [hg] at hn; simp at hn
+
+open SubFlags in
+/-- After a successful save — in place or save-as, at any point of any history — no object of the
+font reports dirty: font, layer set, every layer and layer lib, every loaded glyph and every
+contour, component, anchor, guideline, image and lib below it, the top-level parts, the image
+and data sets. -/
+theorem subobjects_clean_after_save (f0 : FontF) (h0 : Initial f0) (ops : List Op) (sa : Bool) (f' : FontF)
+    (hs : step (run f0 ops) (.save sa) = .ok f') : NothingDirty f' :=
+  nothingDirty_save (dirty_upward_closed f0 h0 ops) hs
+
+open SubFlags in
+/-- Whenever the font does not report dirty, nothing in its tree does. -/
+theorem font_not_dirty_means_nothing_dirty (f0 : FontF) (h0 : Initial f0) (ops : List Op)
+    (hd : (run f0 ops).dirty = false) : NothingDirty (run f0 ops) :=
+  nothingDirty_of_uc (dirty_upward_closed f0 h0 ops) hd
+
+open SubFlags in
+/-- … and then every layer's glyph set holds exactly the layer's content ("not dirty means
+persisted" for glyphs, through `glyphs_not_dirty_means_persisted`): no glyph is dirty and no
+deletion is pending, because a pending deletion keeps the layer's flag raised.  `Layer.Good` is
+M-Layer's bookkeeping invariant (C07). -/
+theorem font_not_dirty_means_glyphs_persisted (f0 : FontF) (h0 : Initial f0) (ops : List Op)
+    (hd : (run f0 ops).dirty = false) (lid : Nat) (L : LayerF) (hl : AL.get? (run f0 ops).lf lid = some L)
+    (hg : Layer.Good L.base) (k : String) : Layer.abs L.base k = AL.get? L.base.disk k := by
+  have hn := (font_not_dirty_means_nothing_dirty f0 h0 ops hd).layers lid L hl
+  have hsched : L.base.sched = [] := by
+    cases hs : L.base.sched with
+    | nil => rfl
+    | cons a r =>
+      have := (inv_reachable h0 ops).2 lid L hl (by rw [hs]; simp)
+      rw [hn.dirty] at this; simp at this
+  refine glyphs_not_dirty_means_persisted L.base hg hsched ?_ k
+  intro n r d hget
+  have := hn.glyph n
+  unfold gdirty at this
+  rw [hget] at this
+  exact this
+
 /-! ### non-vacuity -/
+
+section
+open SubFlags
+
+example : Initial demoFont := Or.inr ⟨_, _, _, _, _, _, _, rfl⟩
+
+/-- an anchor edit on a freshly read glyph raises the whole chain (so the hypotheses of
+`subobject_dirty_reaches_font` are met by a reachable state) -/
+example :
+    let f := run demoFont [.glyphEdit "fore" "A" [.edit .anchor 0] []]
+    (AL.get? f.lf 0).map (fun L => (AL.get? L.subs "A", gdirty L.base "A", L.dirty)) =
+      some (some { contours := [false], anchors := [true], image := some false, imageName := some "i.png" }, true, true)
+    ∧ f.lsDirty = true ∧ f.dirty = true := by decide
+
+/-- reading the composite reads its base; nothing is dirty afterwards -/
+example :
+    let f := run demoFont [.glyphGet "fore" "B"]
+    (AL.get? f.lf 0).map (fun L => (L.subs.map Prod.fst, L.dirty)) = some (["B", "A"], false) ∧ f.dirty = false := by
+  decide
+
+/-- the save path really has something to clear, and clears it -/
+example :
+    let f := run demoFont [.glyphEdit "fore" "A" [.edit .contour 0, .libEdit] [], .layerLibEdit "fore", .save false]
+    f.dirty = false ∧ (AL.get? f.lf 0).map (fun L => (AL.get? L.subs "A", L.lib, L.dirty)) =
+      some (some { contours := [false], anchors := [false], image := some false, imageName := some "i.png" }, false, false) := by
+  decide
+
+/-- a layer lib edit raises the chain above it (hypotheses of `layer_lib_dirty_reaches_font`) -/
+example :
+    let f := run demoFont [.layerLibEdit "fore"]
+    (AL.get? f.lf 0).map (fun L => (L.lib, L.dirty)) = some (true, true) ∧ f.lsDirty = true ∧ f.dirty = true := by decide
+
+/-- the hypotheses of `font_not_dirty_means_glyphs_persisted` are met by the freshly opened font:
+not dirty, and its layer's bookkeeping is well formed (C07 `opened_good`) -/
+example : demoFont.dirty = false ∧ ∃ L, AL.get? demoFont.lf 0 = some L ∧ Layer.Good L.base :=
+  ⟨rfl, _, rfl, (Props.C07.opened_good [("A", {}), ("B", {})] (by decide) (by decide)).1⟩
+
+/-- deleting the image file a loaded glyph shows raises that glyph's layer although no glyph is
+dirty: the closure is upwards only -/
+example :
+    let f := run demoFont [.glyphGet "fore" "A", .fileDel true "i.png"]
+    (AL.get? f.lf 0).map (fun L => (gdirty L.base "A", L.dirty)) = some (false, true) ∧ f.lsDirty = true := by decide
+
+end
+
 
 open FileSet in
 example : WF (run true (opened [("a.png", 1), ("b.png", 2)]) [.get "a.png", .del "b.png", .set "c.png" 3]) :=
